@@ -25,7 +25,11 @@ func TestDev(t *testing.T) {
 		b, _ := strconv.Atoi(parts[2])
 		base = uint64(b)
 	}
-	ws := &WorkerSpec{Prop: parts[0], Mode: "explore", Tier: "quick", BaseSeed: base, Stride: 1, MaxRuns: uint64(n), ReplayDir: os.Getenv("VERIF_DEV_REPLAYS")}
+	tier := "quick"
+	if v := os.Getenv("VERIF_DEV_TIER"); v != "" {
+		tier = v
+	}
+	ws := &WorkerSpec{Prop: parts[0], Mode: "explore", Tier: tier, BaseSeed: base, Stride: 1, MaxRuns: uint64(n), ReplayDir: os.Getenv("VERIF_DEV_REPLAYS")}
 	if v := os.Getenv("VERIF_DEV_START"); v != "" {
 		x, _ := strconv.Atoi(v)
 		ws.Start = uint64(x)
@@ -60,21 +64,31 @@ func TestDiff(t *testing.T) {
 		t.Skip()
 	}
 	parts := strings.Split(spec, ":")
-	idx, _ := strconv.Atoi(parts[1])
+	lohi := strings.Split(parts[1], "-")
+	idx, _ := strconv.Atoi(lohi[0])
+	hi := idx
+	if len(lohi) > 1 {
+		hi, _ = strconv.Atoi(lohi[1])
+	}
 	base, _ := strconv.Atoi(parts[2])
 	p := Props[parts[0]]
 	var enum [][]uint32
 	if p.Enumerate != nil {
 		enum = p.Enumerate("quick")
 	}
-	for rep := 0; rep < 20; rep++ {
+	reps := 20
+	if hi > idx {
+		reps = 2
+	}
+	for ; idx <= hi; idx++ {
+	for rep := 0; rep < reps; rep++ {
 		ch, _ := chooserFor(p, enum, uint64(base), uint64(idx))
 		r1 := ExecRun(t, p, ch, true, "quick")
 		r2 := ExecRun(t, p, NewReplayChooser(ch.Rec), true, "quick")
 		if r1.Digest == r2.Digest {
 			continue
 		}
-		fmt.Printf("rep %d: digests differ %x %x (lens %d %d)\n", rep, r1.Digest, r2.Digest, len(r1.Trace), len(r2.Trace))
+		fmt.Printf("index %d rep %d: digests differ %x %x (lens %d %d)\n", idx, rep, r1.Digest, r2.Digest, len(r1.Trace), len(r2.Trace))
 		for i := 0; i < len(r1.Trace) && i < len(r2.Trace); i++ {
 			if r1.Trace[i] != r2.Trace[i] {
 				lo := max(0, i-12)
@@ -90,5 +104,6 @@ func TestDiff(t *testing.T) {
 		}
 		return
 	}
-	fmt.Println("no divergence in 20 repetitions")
+	}
+	fmt.Println("no divergence")
 }
